@@ -1088,3 +1088,50 @@ func HarnessC09Places() {
 	verifAssert((len(gotE.warns) > 0) == bad, "rejected-example-is-a-warning-and-only-then")
 	verifReach("end")
 }
+
+// HarnessC03Ancestry2: two inheritance shapes the first harness does not draw: a child that declares
+// its own properties BESIDE its allOf (the usual Swagger idiom), and a diamond (A inherits from B
+// and C, which both inherit from D): no cycle there, and D's property is one declaration reached twice.
+func HarnessC03Ancestry2() {
+	sw := &spec.Swagger{}
+	ok := true
+	withProp := func(name string) spec.Schema {
+		s := spec.Schema{}
+		s.Properties = map[string]spec.Schema{name: {}}
+		return s
+	}
+	ref := func(n string) spec.Schema { return *spec.RefSchema("#/definitions/" + n) }
+	if verifBool() {
+		x := []string{"p", "q"}[verifChoose(2)]
+		y := []string{"p", "q"}[verifChoose(2)]
+		child := withProp(y) // own properties beside allOf
+		child.AllOf = []spec.Schema{ref("P")}
+		if verifBool() {
+			child.AllOf = append(child.AllOf, withProp("z"))
+		}
+		sw.Definitions = spec.Definitions{"P": withProp(x), "K": child}
+		ok = x != y
+	} else {
+		d := []string{"p", "q"}[verifChoose(2)]
+		b := []string{"p", "r"}[verifChoose(2)]
+		c := []string{"q", "s"}[verifChoose(2)]
+		a := []string{"t", "r"}[verifChoose(2)]
+		mk := func(own string, parents ...string) spec.Schema {
+			s := spec.Schema{}
+			for _, p := range parents {
+				s.AllOf = append(s.AllOf, ref(p))
+			}
+			s.AllOf = append(s.AllOf, withProp(own))
+			return s
+		}
+		sw.Definitions = spec.Definitions{"D": withProp(d), "B": mk(b, "D"), "C": mk(c, "D"), "A": mk(a, "B", "C")}
+		ok = !(b == d || c == d || a == b || a == c || a == d || b == c)
+	}
+	s := newSpecHarnessValidator(sw, nil, true, true)
+	verifPermMaps(true)
+	got := outcomeOfResult(s.validateDuplicatePropertyNames())
+	verifPermMaps(false)
+	verifObserve("valid", got.valid)
+	verifAssert(got.valid == ok, "no-duplicate-inherited-properties-and-no-circular-ancestry")
+	verifReach("end")
+}
